@@ -265,7 +265,7 @@ class World(object):
         rec['wstate0'] = sc.threads[1].state
       try:
         if via is not None:
-          via.dataReceived(('%s %r %d\n' % (m, v, t)).encode())
+          via.dataReceived(('%s %r %r\n' % (m, v, t)).encode())
         else:
           cache.store(m, (t, v))
       except S.Abort:
